@@ -7,7 +7,7 @@ from props.c02 import edit as c02_edit
 
 PROPERTY_FILES = ["Builder/Properties_C05.v"]
 
-FAULTS = ["kill-save", "kill-save", "kill-prune", "fail-script", "kill-script"]
+FAULTS = ["kill-save", "kill-save", "kill-prune", "kill-invalidate", "fail-script", "kill-script"]
 
 
 def frags(desc):
@@ -37,6 +37,10 @@ def abort_build(w, desc, rng):
     elif kind == "kill-prune":
         rc, txt = bc.bob(w, ["dev"] + roots, crash_env={"BOBV_KILL_PRUNE": "1"})
         what = {"fault": kind}
+    elif kind == "kill-invalidate":
+        k = rng.choice([1, 1, 2, 3])
+        rc, txt = bc.bob(w, ["dev"] + roots, crash_env={"BOBV_KILL_INVALIDATE": str(k)})
+        what = {"fault": kind, "k": k}
     else:
         fr = rng.choice(frags(desc) or ["none"])
         var = "BOBV_FAIL" if kind == "fail-script" else "BOBV_KILL"
@@ -54,7 +58,21 @@ def one_history(args):
     rec = {"seed": seed, "mode": mode, "events": [], "violations": []}
     w = core.scratch_dir("c05")
     try:
-        if mode == "f29":
+        if mode == "inval":
+            base = bc.gen_project(rng)
+            e = None
+            for _ in range(30):
+                e = c02_edit(base, rng)
+                if e is not None and e[1] in ("script", "var_value", "class_script", "global_value"):
+                    break
+            edited = e[0] if e else base
+            proj.write_project(base, w); rc, _ = bc.bob(w, ["dev"] + bc.roots_of(base)); rec["events"].append({"build": 0, "rc": rc})
+            proj.write_project(edited, w)
+            k = rng.choice([1, 1, 2, 3])
+            rc, txt = bc.bob(w, ["dev"] + bc.roots_of(base), crash_env={"BOBV_KILL_INVALIDATE": str(k)})
+            rec["events"].append({"fault": "kill-invalidate", "k": k, "rc": rc, "aborted": rc != 0, "edit": e[1] if e else None}); unlock(w)
+            final = edited
+        elif mode == "f29":
             # edit, kill right after the first prune, revert
             base = bc.gen_project(rng)
             e = None
@@ -120,8 +138,8 @@ def run(ctx):
         "scripts are deterministic and restartable by construction (they remove their own partial output first)",
         "kill points are the persistent-state saves and the end of a prune; kills inside os-level file operations are C10's matter",
     ]
-    nh = ctx.n(12, 160)
-    jobs = [(ctx.rng.randrange(1 << 30), "f29" if i % 4 == 0 else "random") for i in range(nh)]
+    nh = ctx.n(16, 200)
+    jobs = [(ctx.rng.randrange(1 << 30), "f29" if i % 4 == 0 else ("inval" if i % 4 == 1 else "random")) for i in range(nh)]
     with ThreadPoolExecutor(max_workers=6) as ex:
         recs = list(ex.map(one_history, jobs))
     for rec in recs:
